@@ -33,7 +33,27 @@ type roundMark struct {
 // enumerateImages lists the images to try for one trace.
 func enumerateImages(trace []eng.FOp, r *eng.Rng, killOnly bool, perPoint int, maxPoints int) []eng.CrashImage {
 	var pts []int
+	// long histories (fat-footer programs): what differs from the short ones
+	// is only the tail, where the footer spans several page blocks
+	from, nm := 0, 0
+	for i := len(trace) - 1; i >= 0; i-- {
+		if trace[i].Kind == "mark" {
+			nm++
+			if nm == 40 {
+				break
+			}
+			if nm == 8 {
+				from = i
+			}
+		}
+	}
+	if nm < 40 {
+		from = 0
+	}
 	for i, op := range trace {
+		if i < from {
+			continue
+		}
 		switch op.Kind {
 		case "write", "sync", "create", "unlink", "close":
 			pts = append(pts, i)
@@ -52,9 +72,19 @@ func enumerateImages(trace []eng.FOp, r *eng.Rng, killOnly bool, perPoint int, m
 		for _, x := range np {
 			keep[x] = true
 		}
+		nmarks, seenMarks := 0, 0
+		for _, op := range trace {
+			if op.Kind == "mark" {
+				nmarks++
+			}
+		}
 		for i, op := range trace {
 			if op.Kind != "mark" {
 				continue
+			}
+			seenMarks++
+			if nmarks-seenMarks >= 16 {
+				continue // long histories: only the windows of the last 16 markers
 			}
 			n := 0
 			for j := i + 1; j < len(trace) && n < 2; j++ {
@@ -63,6 +93,16 @@ func enumerateImages(trace []eng.FOp, r *eng.Rng, killOnly bool, perPoint int, m
 					keep[j] = true
 					n++
 				}
+			}
+		}
+		// and the last writes that span three or more page blocks (fat
+		// footers): their "hole" images are the only ones whose framing
+		// survives while the content does not
+		nfat := 0
+		for j := len(trace) - 1; j >= 0 && nfat < 4; j-- {
+			if spansPages(trace[j]) >= 3 {
+				keep[j] = true
+				nfat++
 			}
 		}
 		np = np[:0]
@@ -110,6 +150,9 @@ func enumerateImages(trace []eng.FOp, r *eng.Rng, killOnly bool, perPoint int, m
 			}
 			continue
 		}
+		if spansPages(op) >= 3 {
+			out = append(out, eng.CrashImage{Point: p, Torn: -1, Kind: "hole"})
+		}
 		out = append(out, eng.CrashImage{Point: p, Torn: -1, Kind: "none"})
 		out = append(out, eng.CrashImage{Point: p, Torn: -1, Kind: "zero-extend"})
 		for j := 0; j < perPoint; j++ {
@@ -124,6 +167,14 @@ func enumerateImages(trace []eng.FOp, r *eng.Rng, killOnly bool, perPoint int, m
 	return out
 }
 
+// spansPages returns the number of page blocks a successful write touches.
+func spansPages(op eng.FOp) int {
+	if op.Kind != "write" || op.N <= 0 {
+		return 0
+	}
+	return int((op.Off+int64(op.N)-1)/eng.PageSize-op.Off/eng.PageSize) + 1
+}
+
 // recordTrace runs the program through the recording substrate.
 func recordTrace(p *eng.Program, scratch string, idx int) (trace []eng.FOp, marks []roundMark, world *model.World, uni *eng.Universe, err string) {
 	dir := filepath.Join(scratch, fmt.Sprintf("rec%06d", idx))
@@ -135,6 +186,11 @@ func recordTrace(p *eng.Program, scratch string, idx int) (trace []eng.FOp, mark
 	defer eng.DeactivateFS()
 	r := eng.NewRunner(p, eng.Oracles{Store: true}, dir)
 	r.E.FS = fs
+	r.E.D.OnCross = func(point string) {
+		if strings.HasPrefix(point, "store.") {
+			fs.SetPhase(point)
+		}
+	}
 	r.OnState = func(tree *model.Coll, kind string) {
 		fs.Mark("state after " + kind)
 		marks = append(marks, roundMark{At: fs.Len() - 1, Kind: kind, Tree: tree.Clone(), Hash: tree.Hash()})
@@ -395,7 +451,14 @@ func genC05Program(r *eng.Rng, th bool) *eng.Program {
 		gp.FirstWide = 200 + r.Intn(300)
 		gp.MaxBatches = 8
 	}
-	withRevert := !gp.Lean && r.Chance(1, 3)
+	fat := r.Chance(1, 8)
+	if fat {
+		// fat footers: dozens of appended rounds without any compaction, so
+		// that the footer's JSON spans three or more page blocks
+		cfg.Concern, cfg.NoSync = 0, false
+		gp = eng.GenParams{MinBatches: 80, MaxBatches: 80 + r.Intn(40), NKeys: 5 + r.Intn(6), Children: true, NoPersistSteps: true, SmallVals: true}
+	}
+	withRevert := !gp.Lean && !fat && r.Chance(1, 3)
 	if withRevert {
 		// history (and so a revert target other than the current state)
 		// only exists while no compaction rewrites the file
@@ -407,7 +470,7 @@ func genC05Program(r *eng.Rng, th bool) *eng.Program {
 	var steps []eng.Step
 	for i, s := range p.Steps {
 		steps = append(steps, s)
-		if s.K == "batch" && !gp.Lean && r.Chance(1, 2) {
+		if s.K == "batch" && !gp.Lean && (fat || r.Chance(1, 2)) {
 			steps = append(steps, eng.Step{K: "merge", A: "plain"}, eng.Step{K: "persist"})
 		}
 		if i == len(p.Steps)/2 && r.Chance(1, 3) {
@@ -474,6 +537,22 @@ func init() {
 				}
 			}
 			sr.Counters["traces"]++
+			if len(marks) >= 40 {
+				sr.Counters["traces.long_history"]++
+				mx := 0
+				for _, op := range trace {
+					if strings.HasSuffix(op.Phase, ".segments") && spansPages(op) > mx {
+						mx = spansPages(op)
+					}
+				}
+				sr.Counters[fmt.Sprintf("traces.long_history.footer_pages=%d", mx)]++
+			}
+			for _, im := range images {
+				sr.Counters["images."+im.Kind]++
+				if im.Kind == "hole" && strings.HasSuffix(trace[im.Point].Phase, ".segments") {
+					sr.Counters["images.hole.footer"]++
+				}
+			}
 			sr.Counters["trace.ops"] += int64(len(trace))
 			sr.Counters["crash.states_marked"] += int64(len(marks))
 			for _, m := range marks {
